@@ -33,6 +33,6 @@ def run(ctx):
     ok = len(gm) == 1 and len(rm) == 1 and flow.root_local(rs, gm[0].args[1]) == flow.root_local(rs, rm[0].args[1])
     ctx.check(ok, "C08.D1.evict-addressed", "router:start_send:evicts-other", "Router::start_send evicts exactly the entry it addressed when that entry's start_send fails", rs.span)
     for which in ("pubsub", "reqrep"):
-        ex, sd, cfg = routers.report(ctx, F, which, "C08", lambda f: f.kind in ("K2", "K10", "K12", "K13"))
+        ex, sd, cfg = routers.report(ctx, F, which, "C08", lambda f: f.kind in ("K2", "K4", "K5", "K10", "K12", "K13", "K14"))
         ctx.floor("C08.%s.unwrap-sites-evaluated" % which, sum(1 for c in cfg.body.calls() if strip_generics(c.callee) in panics.UNWRAPS), 3)
         ctx.ok("C08.pollai", "%s router: every Option/Result unwrap evaluated path-sensitively in %d reachable (block,state) nodes with failing peers" % (which, len(ex.it.nodes)), cfg.body.span)
